@@ -49,9 +49,10 @@ def word_to_bytes(m, st, v, n, order="ne"):
     if v[0] != "word":
         raise Unanalysable("to_bytes of %s" % v[0])
     e = v[1]
-    if e[0] == "leaf":
+    if e[0] == "leaf" and not any(leaf_of(f[0]) == e for f in st.wfacts):
         return ("agg", tuple(e[1][i] for i in idx))
-    return ("agg", tuple(("wlane", e, i) for i in idx))
+    # facts about the whole word (e.g. `word != 0`) must stay visible to tests on its bytes
+    return ("agg", tuple(("wlane", e, i) if (e[0] != "leaf" or e[1][i][0] == "cell") else e[1][i] for i in idx))
 
 
 def wexpr_of(v):
@@ -726,8 +727,8 @@ X86 = ["_mm_set1_epi8", "_mm_lddqu_si128", "_mm_loadu_si128", "_mm_load_si128", 
 def install(m):
     for name in X86:
         f = x86_prim(name)
-        m.prims["std::arch::x86_64::" + name] = f
-        m.prims["std::arch::x86::" + name] = f
+        m.prims["core::arch::x86_64::" + name] = f
+        m.prims["core::arch::x86::" + name] = f
         m.prims["core::core_arch::x86::" + name] = f
     from . import neon
     neon.install(m)
